@@ -254,7 +254,7 @@ def run_unit(ctx, u):
     fails = 0
     bounds, pos, bi = [], 0, 0
     while pos < len(cases):
-        B = (7, 1, 45, 2, 203, 7, 7, 64)[bi % 8]
+        B = (7, 1, 45, 2, 203, 7, 7, 64, 601)[bi % 9]
         bounds.append((pos, min(len(cases), pos + B)))
         pos += B
         bi += 1
@@ -284,6 +284,22 @@ def run_unit(ctx, u):
                     f"{nm}|bounded-distance:message|wrong message,{wclass}",
                     spec=spec, t=t, message=gf2.bits_from_vec(m, k), error_positions=[j for j in range(n) if (e >> j) & 1], decoded=gf2.bits_from_vec(g, k), row_in_batch=row, batch=len(chunk),
                 )
+    # one large batch (several hundred rows of seeded codewords + patterns of weight <= t): a decoder that works
+    # through a big batch in slices must not lose or misplace rows
+    if dec in ("rm_inverse", "rm_majority", "syndrome", "bruteforce", "hamming_inverse") and n <= 32 and not (dec == "rm_inverse" and k > 20):
+        NB = 640
+        big = [(rng.getrandbits(k), rng.choice(pats)) for _ in range(NB)]
+        try:
+            out = run_decoder([encode_ref(m) ^ e for m, e in big])
+            got = cat.rows_to_ints(out) if tuple(out.shape) == (NB, k) else None
+            if got is None:
+                ctx.violation(f"{nm}|bounded-distance:shape|wrong", spec=spec, out_shape=list(out.shape), expected=[NB, k])
+            else:
+                wrong = [i for i, ((m, e), gm) in enumerate(zip(big, got)) if gm != m]
+                ctx.case(dec, spec["id"], "large-batch")
+                ctx.check(not wrong, "bounded-distance:message", f"{nm}|bounded-distance:message|wrong message in a batch of {NB}", spec=spec, t=t, wrong_rows=wrong[:10], n_wrong=len(wrong))
+        except Exception as e:  # noqa: BLE001
+            ctx.violation(f"{nm}|bounded-distance:message|raised:{type(e).__name__} on a batch of {NB}", spec=spec, error=str(e)[:300])
     # a prefix decoded 1-D as well
     pre = min(6 if q else 24, len(cases))
     try:
